@@ -18,6 +18,9 @@ func parseParams(f string) (map[string]string, bool) {
 	if f == "=" { // empty, non-nil map
 		return m, true
 	}
+	if f == "0" { // the zero CompileOptions value: non-nil options, nil map
+		return nil, true
+	}
 	for _, kv := range strings.Split(f, ",") {
 		i := strings.Index(kv, ":")
 		if i < 0 {
